@@ -43,6 +43,14 @@ def wrap( s ):
 def expand( v ):
   return os.path.expanduser(os.path.expandvars(v))
 
+def sized_decimal( nbits, value ):
+  """Return the sized decimal literal of integer `value`. A negative value is
+  given in two's complement because <nbits>'d-1 is not Verilog."""
+  value = int( value )
+  if value < 0:
+    value += 1 << nbits
+  return f"{nbits}'d{value}"
+
 def pretty_concat( *strings ):
   ret = ' '.join([s for s in strings[:-1] if s])
   if strings[-1] == ';':
